@@ -1464,3 +1464,93 @@ Theorem roundtrip_all A b v locals m e w :
     x_name x = JStr (e_name e) /\
     kid_url (ident_of A) m e = Some u /\ x_url x = JStr (spec_join b u).
 Proof. intros. apply roundtrip; auto using ident_of_noslash. Qed.
+
+(* ================================================================= combined partial statements *)
+
+Lemma local_first_find_partial B tops n child :
+  (lower_in n (local_names B CModules) = true \/ lower_in n (local_names B CSubmodules) = true)
+  \/ (ext_named tops n = false /\ defined_locally B n = true) ->
+  exists h, project_find B tops n None child = Ok (Some h) /\ is_local h = true.
+Proof.
+  intros [H|[H1 H2]].
+  - now apply find_local_module_first.
+  - now apply find_local_when_no_ext.
+Qed.
+
+Lemma load_errors_contained_partial src :
+  benign src ->
+  survives (load src) = true /\ (has_description src = false -> only_links_lost (load src) = true).
+Proof. intros H. split; [now apply load_contained_partial|now apply load_failed_only_links]. Qed.
+
+(* ================================================================= non-vacuity *)
+
+Lemma roundtrip_nonvacuous :
+  wf_A A_ex /\ base_ok (BRemote (s "https://docs.example.org/a/")) /\ base_ok (BLocal (s "/srv/a/doc")) /\
+  (exists m e, In m (a_modules A_ex) /\ In e (e_kids m) /\ e_name e = s "Init" /\ accessible e = true /\
+               pub_class (e_kind e) = Some (s "pub_procs") /\ lower_in (e_name m) [s "bm"] = false /\
+               no_slash (ident_of A_ex (e_id m)) = true /\ no_slash (ident_of A_ex (e_id e)) = true /\
+               kid_url (ident_of A_ex) m e = Some (s "proc/init~2.html")) /\
+  consistent (all_reqs A_ex) /\
+  Forall (fun r => no_tilde (final_name (r_name r))) (all_reqs A_ex) /\
+  display_default (c_display (a_cfg A_ex)) = true.
+Proof.
+  split; [exact wf_A_ex|]. split; [exists (s "https://docs.example.org/a"); split; reflexivity|].
+  split; [exact I|]. split.
+  { exists (Ent 8 KModule (s "mb") Private
+              [Ent 9 KSubroutine (s "Init") Public []; Ent 10 KType (s "shape_t") Public []]),
+           (Ent 9 KSubroutine (s "Init") Public []).
+    repeat split; try (vm_compute; tauto). }
+  split.
+  { apply consistent_of_nodup. vm_compute. repeat constructor; simpl; intuition discriminate. }
+  split; [|reflexivity].
+  unfold A_ex, all_reqs; cbn [a_pre a_modules app flat_map tree_reqs].
+  repeat (apply Forall_cons || apply Forall_nil); intros H; vm_compute in H; intuition discriminate.
+Qed.
+
+(* more non-vacuity: the hypotheses of the other theorems on concrete inputs *)
+Example target_written_ex :
+  exists m e u, In m (a_modules A_ex) /\ e_kind m = KModule /\ In e (e_kids m) /\
+    shown (c_display (a_cfg A_ex)) e = true /\ no_hash (ident_of A_ex (e_id m)) = true /\
+    no_hash (ident_of A_ex (e_id e)) = true /\ kid_url (ident_of A_ex) m e = Some u /\
+    u = s "module/ma.html#variable-count" /\ In (page_of u) (pages_written A_ex).
+Proof.
+  exists (Ent 1 KModule (s "ma") Public
+          [Ent 2 KSubroutine (s "init") Public []; Ent 3 KType (s "shape_t") Public
+             [Ent 4 KVar (s "side") Public []; Ent 5 KBound (s "draw") Public []];
+           Ent 6 KVar (s "count") Protected []; Ent 7 KFunction (s "hid") Private []]),
+         (Ent 6 KVar (s "count") Protected []), (s "module/ma.html#variable-count").
+  repeat split; try (vm_compute; tauto).
+Qed.
+
+Example target_unique_ex :
+  exists m1 e1 m2 e2,
+    In m1 (a_modules A_ex) /\ In m2 (a_modules A_ex) /\ In e1 (e_kids m1) /\ In e2 (e_kids m2) /\
+    lower (e_name e1) = lower (e_name e2) /\ e_id e1 <> e_id e2 /\
+    dir_of (Some KModule) (e_kind e1) = Some (s "proc") /\ dir_of (Some KModule) (e_kind e2) = Some (s "proc") /\
+    kid_url (ident_of A_ex) m1 e1 = Some (s "proc/init.html") /\
+    kid_url (ident_of A_ex) m2 e2 = Some (s "proc/init~2.html").
+Proof.
+  exists (Ent 1 KModule (s "ma") Public
+          [Ent 2 KSubroutine (s "init") Public []; Ent 3 KType (s "shape_t") Public
+             [Ent 4 KVar (s "side") Public []; Ent 5 KBound (s "draw") Public []];
+           Ent 6 KVar (s "count") Protected []; Ent 7 KFunction (s "hid") Private []]),
+         (Ent 2 KSubroutine (s "init") Public []),
+         (Ent 8 KModule (s "mb") Private
+          [Ent 9 KSubroutine (s "Init") Public []; Ent 10 KType (s "shape_t") Public []]),
+         (Ent 9 KSubroutine (s "Init") Public []).
+  repeat split; try (vm_compute; tauto). vm_compute. discriminate.
+Qed.
+
+Example local_first_ex : lower_in (s "MA") [s "x"; s "ma"] = true.
+Proof. reflexivity. Qed.
+
+Example find_partial_ex :
+  ext_named tops_shape (s "other") = false /\
+  defined_locally [(CProcedures, [s "Other"])] (s "other") = true /\
+  lower_in (s "Shape") (local_names [(CSubmodules, [s "shape"])] CSubmodules) = true.
+Proof. repeat split; reflexivity. Qed.
+
+Example benign_ex :
+  benign (SLocal (s "/a") LBadJson) /\ benign (SRemote (s "http://h/") RUrlError) /\
+  benign (SRemote (s "http://h/") (RJson (export A_ex []))).
+Proof. repeat split; constructor. Qed.
